@@ -7,10 +7,13 @@ import Req.C03.H3Cut
 import Req.C03.GzipCut
 import Req.C03.EncCut
 import Req.C03.H2Multi
+import Req.C03.H1End
+import Req.C03.H3Next
 /-! Driver lanes of C03.
 
-`c03cut <G|H> <eof|hold> <hex stream> <k>`: the peer sends the first `k` bytes of the stream in
-answer to the first request of a fresh client and then ends the connection (`eof`) or keeps it
+`c03cut <G|H> <eof|reset|hold|early> <hex stream> <k>`: the peer sends the first `k` bytes of the stream in
+answer to the first request of a fresh client and then ends the connection (`eof`: FIN; `reset`:
+RST — a close-delimited body then ends in an error, `Req.C03.parseFinalEnd`) or keeps it
 open (`hold`, only used with `k` = whole stream).  Answer: what the caller of the real client
 must observe — `fail` or `ok code=… body=…` — and how many connections the client will have
 dialled after a second request (`dials=1` iff the model's `connReusable` allows reuse).
@@ -42,11 +45,13 @@ def laneCut : List String → String
     match decodeHex hex, ks.toNat? with
     | some s, some k =>
       if meth != "G" && meth != "H" then "bad-op"
-      else if mode != "eof" && mode != "hold" && mode != "early" then "bad-op"
+      else if mode != "eof" && mode != "reset" && mode != "hold" && mode != "early" then "bad-op"
       else
         let isHead := meth == "H"
-        let o := parseFinal isHead 4096 (s.take k)
-        let env : ReuseEnv := ⟨false, isHead, false, mode == "eof", true, true, mode != "early"⟩
+        -- `reset`: the connection ends with ECONNRESET instead of io.EOF (`Req.C03.parseFinalEnd`)
+        let o := if mode == "reset" then Req.C03.parseFinalEnd .reset isHead 4096 (s.take k)
+                 else parseFinal isHead 4096 (s.take k)
+        let env : ReuseEnv := ⟨false, isHead, false, mode == "eof" || mode == "reset", true, true, mode != "early"⟩
         let dials := if connReusable o env then "1" else "2"
         match o with
         | .reject => "fail dials=" ++ dials
@@ -161,7 +166,28 @@ def parseH3End : String → Option H3End
   | "close" => some (.connClose 0)
   | _ => none
 
-def laneH3 : List String → String
+/-- `<safe><hasBody><idemKey>` (three 0/1 digits): the kind of the NEXT request. -/
+def parseNextReq (s : String) : Option NextReq :=
+  match s.toList with
+  | [a, b, c] => do
+    let a ← parseBool01 (String.singleton a)
+    let b ← parseBool01 (String.singleton b)
+    let c ← parseBool01 (String.singleton c)
+    pure ⟨a, b, c⟩
+  | _ => none
+
+/-- ` dials=N` (historical form) or, with the kind of the next request, ` next=ok|fail dials=N`
+(`Req.C03.h3Next` = `RoundTripOpt` on the cache the first request left). -/
+def h3Tail (e : H3End) (o : H3Outcome) : Option String → String
+  | none => " dials=" ++ toString (h3DialsAfterSecond e o)
+  | some nx =>
+    match parseNextReq nx with
+    | none => " bad-op"
+    | some q =>
+      let r := h3Next e o q
+      " next=" ++ (if r.1 then "ok" else "fail") ++ " dials=" ++ toString r.2
+
+def laneH3A (nx : Option String) : List String → String
   | [hd, segs, fin, fls, mode] =>
     match parseBool01 hd, decodeList segs, parseH3End fin, decodeFieldLists fls with
     | some isHead, some segs, some e, some fls =>
@@ -175,9 +201,14 @@ def laneH3 : List String → String
          if mode == "s" && e == .fin then "fail-body delivered=" ++ encodeHex d
          else if mode == "s" then "fail-body" else "fail"
        | .bodyOpen _ d => "open delivered=" ++ encodeHex d)
-      ++ " dials=" ++ toString (h3DialsAfterSecond e o)
+      ++ h3Tail e o nx
     | _, _, _, _ => "bad-op"
   | _ => "bad-op"
+
+/-- `c03h3 … <mode> [<next kind>]`. -/
+def laneH3 : List String → String
+  | [hd, segs, fin, fls, mode, nx] => laneH3A (some nx) [hd, segs, fin, fls, mode]
+  | args => laneH3A none args
 
 /-! ### gzip -/
 
@@ -220,15 +251,19 @@ def laneH2z : List String → String
   | _ => "bad-op"
 
 /-- `c03h3z <gzip|deflate> <head> <segs> <fin|reset|close> <fieldlists> <mode s|a>`: `c03h3` decoded. -/
-def laneH3z : List String → String
+def laneH3zA (nx : Option String) : List String → String
   | [enc, hd, segs, fin, fls, mode] =>
     match parseEnc enc, parseBool01 hd, decodeList segs, parseH3End fin, decodeFieldLists fls with
     | some enc, some isHead, some segs, some e, some fls =>
       if mode != "s" && mode != "a" then "bad-op" else
       let (zo, o) := h3Enc enc isHead segs e.net fls 10485760 512
-      renderEnc mode zo ++ " dials=" ++ toString (h3DialsAfterSecond e o)
+      renderEnc mode zo ++ h3Tail e o nx
     | _, _, _, _, _ => "bad-op"
   | _ => "bad-op"
+
+def laneH3z : List String → String
+  | [enc, hd, segs, fin, fls, mode, nx] => laneH3zA (some nx) [enc, hd, segs, fin, fls, mode]
+  | args => laneH3zA none args
 
 /-- `c03h1z <gzip|deflate> <hex stream> <k>`: an HTTP/1.1 response with an encoded body under
 `EnableAutoDecompress`, cut at `k`, then EOF. -/
